@@ -190,6 +190,13 @@ func (f changeFinder) walkStruct(from, to *value) bool {
 			// If the field is a Node, its range begins when the Node starts.
 			starts[i] = f.Pos()
 			lastEnd = f.End()
+
+			// Comments trailing this node (for example, on the line of
+			// the package clause) belong to it, so the fields that
+			// follow begin only after them.
+			if _, after := (changeFinder{}).commentsFor(f); len(after) > 0 {
+				lastEnd = maxPos(lastEnd, after[len(after)-1].End())
+			}
 		case f.Type() == goast.PosType:
 			// If the field is a token.Pos, its range begins based on whatever
 			// its value is.
